@@ -391,8 +391,12 @@ class GState:
 
         if mode != SpinMode.OFF:
             self._ensure_tool_is_inactive("Spindle already active.")
+            self._validate_tool_power(speed)
 
-        self._set_tool_power(speed)
+        # Stopping the tool must always be possible: the implicit zero
+        # power of a stopped tool is not subject to the user bounds.
+
+        self._current_tool_power = speed
         self._is_tool_active = (mode != SpinMode.OFF)
         self._current_spin_mode = mode
 
@@ -412,8 +416,12 @@ class GState:
 
         if mode != PowerMode.OFF:
             self._ensure_tool_is_inactive("Power already active.")
+            self._validate_tool_power(power)
 
-        self._set_tool_power(power)
+        # Stopping the tool must always be possible: the implicit zero
+        # power of a stopped tool is not subject to the user bounds.
+
+        self._current_tool_power = power
         self._is_tool_active = (mode != PowerMode.OFF)
         self._current_power_mode = mode
 
